@@ -167,8 +167,6 @@ KANI.update({
     "k_clone_cell": dict(props=["C10"], kind="complete", fn="cell.rs impl Clone for Cell2", what="a clone holds equal bits in fresh cells: arbitrary writes through the clone leave the original bit-identical"),
     "k_clone_site": dict(props=["C10"], kind="complete", fn="site.rs impl Clone for OccupiedSite", what="a cloned site holds equal bits in fresh cells and the same multiplicity"),
     "k_site_basis": dict(props=["C08"], kind="complete", fn="site.rs OccupiedSite::get_basis", what="handles x,y in [-1/2,1/2], orientation in [0, 2pi/rot]; each writes only its own cell; written values stay in range"),
-    "k_images_0": dict(props=["C14"], kind="bounded", bound="shells = 0, integer lattice (a=1, b=2, cos=0, sin=1)", fn="cell.rs Cell2::periodic_images", what="exact multiset of images"),
-    "k_images_1": dict(props=["C14", "C01"], kind="bounded", bound="shells = 1, integer lattice (a=1, b=2, cos=0, sin=1)", fn="cell.rs Cell2::periodic_images", what="exact multiset of images: each n*A+m*B with |n|,|m|<=1 exactly once, the untranslated one only when asked, orientation unchanged"),
 })
 
 _GEOM_ASSUMPTIONS = [
@@ -198,12 +196,12 @@ PROPS["C13"] = dict(
     undecided=["molecule energy = sum over atom pairs (`iproduct!.map.sum` plumbing in LJShape2::energy) is assumed", "LJShape2::from_trimer's map closure (sigma = 2 radius, cutoff 3.5) is not under contract yet"],
 )
 PROPS["C14"] = dict(
-    level="other", units=["geom"], kani=["k_images_0", "k_images_1", "k_shim_transform"], lemmas=["lattice-area"],
+    level="other", units=["geom"], kani=["k_shim_transform"], lemmas=["lattice-area"],
     explanation="Unbounded (Verus, all cell parameters): the real to_cartesian/to_cartesian_point/center map (x,y) to x*A + y*B with A=(a,0), B=(b cos t, b sin t); to_cartesian_isometry and "
                 "to_cartesian_translate keep the linear part and map the translation to C(t) resp. C(t) + n*A + m*B; area = A x B (z3: equals a b sin t >= 0). "
-                "Enumeration of images by the `iproduct!.filter.map` chain is checked by Kani on an exact integer lattice for shells 0 and 1 only — BOUNDED, never counted as proved.",
+                "Enumeration of images by the `iproduct!.filter.map` chain is NOT decided: a bounded Kani harness on an exact integer lattice needed 28 min for one shell and was removed (DESIGN 9: 10-minute rule).",
     assumptions=_GEOM_ASSUMPTIONS,
-    undecided=["periodic_images enumeration for shells >= 2 (CBMC needs > 10 min at 25+ iterations of nalgebra code): covered only by the V contract of to_cartesian_translate per element", "get_corners (map/collect plumbing)"],
+    undecided=["periodic_images: that the iterator yields exactly the (2k+1)^2 (-1) pairs (n,m), each once — iterator plumbing, only the per-element map to_cartesian_translate is proved", "get_corners (map/collect plumbing)"],
 )
 PROPS["C15"] = dict(
     level="other", units=["geom"], kani=["k_wrap_range", "k_shim_transform"], lemmas=[],
@@ -233,4 +231,54 @@ PROPS["C04"] = dict(
                 "with g g_k = g_k' mod lattice (closure proved on the tables under C16).",
     assumptions=_GEOM_ASSUMPTIONS + ["in floats cos(PI/2) is 6e-17, not 0: the residual shear of a 'rectangular' cell is a rounding effect outside Theory M"],
     undecided=["`map.map`/`flat_map` plumbing of positions()/relative_positions()", "the composition of steps (1)-(5) is a paper argument (DESIGN §5 C04), each step is machine-checked"],
+)
+
+# ---------------------------------------------------------------- state level (C01, C03, C08, C10) and C02 update
+_STATE_ASSUMPTIONS = _GEOM_ASSUMPTIONS + [
+    "contract on Shape implementors (trait shim ShapeT/PotT): area(), enclosing_radius(), energy() are functions of the shape only; every component of a shape lies within enclosing_radius of its origin (the fold(MIN, max) plumbing of enclosing_radius is assumed)",
+    "PackedState::check_intersection and both total_shapes are iterator chains: their loop structure (which pairs are visited) is NOT under contract; only the statements deciding how far to look (shell count), what to skip (prefilter) and with which weight a pair enters the sum are proved, as R13 slices",
+]
+PROPS["C02"]["units"] = ["pairs", "geom", "state"]
+PROPS["C02"]["explanation"] = (
+    "Verus proves on the real PackedState::score that the reported value is None when the overlap test fires and otherwise exactly shape.area() * copies / cell.area(); "
+    "Cell2::area = A x B = a b sin t (z3: non-negative for the angle range); Atom2::area = pi r^2; MolecularShape2::overlap_area = circular-segment formula; circle_overlap = lens of two discs; "
+    "from_trimer / circle build the discs at the stated coordinates. The number of copies (fold over sites) and the shape-level area sums are iterator plumbing, assumed.")
+PROPS["C01"] = dict(
+    level="other", units=["state", "geom", "pairs"], kani=["k_wrap_range"],
+    lemmas=["shell-x", "shell-y", "shell-wrap", "disc-meaning", "seg-witness", "seg-unique"],
+    explanation="Arithmetic core, unbounded: (1) score() is Some iff check_intersection() is false (Verus, real score); (2) the shell count used by the real check_intersection is Cell2::periodic_shells(2R), "
+                "whose real body Verus proves to return k with k*a*sin t >= 2R and k*b*sin t >= 2R for every cell (this replaced the aspect-ratio heuristic, defect D1, fixed); "
+                "(3) z3: copies are wrapped into [-1/2,1/2) (C15), so an image more than k cells away has a fractional offset > k, hence a centre distance > 2R, hence cannot overlap a shape that lies within R of its centre; "
+                "(4) the prefilter skips a pair only if its squared centre distance exceeds (2R)^2 (Verus, real statements as slices); (5) the pair predicate is the exact crossing/disc test (C12). "
+                "Which pairs the loops visit (in-cell skip(index+1), images from periodic_images) is iterator plumbing: assumed (no bounded stand-in finished within 10 minutes).",
+    assumptions=_STATE_ASSUMPTIONS,
+    undecided=["loop structure of check_intersection (enumerate/skip/flat_map/periodic_images) — not under contract", "polygon-level geometry and rounding at exactly aligned configurations (see C12)",
+               "reachability along optimisation histories is C06/C20 (the optimiser only keeps scored states)"],
+)
+PROPS["C03"] = dict(
+    level="other", units=["state", "pairs", "geom"], kani=[], lemmas=["lj-symmetric-like", "lj-symmetric"],
+    explanation="Verus proves, on the real statements of PotentialState::score taken as slices, the weight with which a visited pair enters the sum: in-cell pairs (each unordered pair once) weight 1, "
+                "pairs with a periodic image (found from both members) weight 1/2 — the halving was missing (defect D3a, fixed: the same p2 crystal scored -42.06 or -20.14) — and score = -sum / copies. "
+                "The pair energy is the 12-6 law of |p-q|^2 only (C13) and Mul<Transform2> moves positions only. Representation independence additionally needs E(a,b) = E(b,a): refuted for unlike particles (known finding D9).",
+    assumptions=_STATE_ASSUMPTIONS,
+    undecided=["which index sets the two loop nests range over (iterator plumbing)", "the image range is a fixed 3 shells: pairs within the cutoff are missed once 3*min(a,b)*sin t < cutoff + 2R (D3b, not decided here: no contract ties the shell count to the cutoff)",
+               "convergence error of the truncated sum for the uncut potential"],
+)
+PROPS["C08"] = dict(
+    level="proof", units=["opt", "state", "geom"], kani=["k_basis_set_reset", "k_cell_dof", "k_cell_from_family", "k_site_basis"], lemmas=[],
+    explanation="Verus proves on the real get_degrees_of_freedom / get_basis / generate_basis (both state kinds) that a valid state yields at least one handle, each with the bounds of the property statement "
+                "([0.01, length], [0.1, ratio], [pi/6, pi/2] only for oblique cells, [-1/2,1/2], [0, 2pi/rot]) and the current value inside them; on the real optimiser loop that bounds never change and every value stays inside "
+                "its bounds at every step and at both exits (inv.wf, exit*.held), and that the final assert (defined score) cannot fail. Kani proves the same bounds, the frame (a parameter without a handle keeps its bits: the cell stays in its family) "
+                "and the clamp on the real pointers for all bit patterns, which also gives chaining: bounds re-derived from in-range values are sub-ranges.",
+    assumptions=_OPT_ASSUMPTIONS + _GEOM_ASSUMPTIONS[2:],
+    undecided=["'every supported group with any shape starts from a valid state': from_family/from_wyckoff values are proved (initial ratio 1, angle pi/2 or pi/3, position -1/2+1/(2N) in range, length 4RN); that the initial copies do not overlap is not proved"],
+)
+PROPS["C10"] = dict(
+    level="other", units=["state", "opt"], kani=["k_tables_label_%s" % g for g in _GROUPS] + ["k_clone_cell", "k_clone_site"], lemmas=[],
+    explanation="Proved: the group lookup returns the requested group's own name, its ITA family and its full number of operations (Kani, complete; p1g1 was labelled p1m1 — defect D5, fixed); "
+                "the order on states is the order on their scores and cmp is total when both have scores (Verus, real eq/partial_cmp/cmp); cloning a cell or site yields fresh cells (Kani, all bit patterns), "
+                "and the optimiser's random stream is a function of the given seed only (Verus: seed clause, build.seed), so a replica's result does not depend on the others and max over a longer prefix cannot be lower.",
+    assumptions=_STATE_ASSUMPTIONS + _OPT_ASSUMPTIONS[:2],
+    undecided=["main.rs (rayon `max()`, logging, file writing) is a parallel adapter chain in a binary crate behind #[paw::main]: not under contract — that the CLI really takes the maximum and writes that state is assumed",
+               "derive(Clone) of PackedState/PotentialState composes the field clones (derive-generated code not verified)"],
 )
